@@ -35,6 +35,30 @@ Theorem C13_rollup_parse : forall rl, wf_rollup rl = true ->
 Proof. exact rollup_parse. Qed.
 Print Assumptions C13_rollup_parse.
 
+(* the complete line set of a current kernel's roll-up: the lines that are not figures
+   (Pss_Dirty, Pss_Anon, Pss_File, Pss_Shmem, KSM, LazyFree, AnonHugePages, ShmemPmdMapped,
+   FilePmdMapped, Shared_Hugetlb, SwapPss, Locked) cannot change the answer, whatever they say *)
+Theorem C13_rollup_ignores_decoys : forall hdr fv d,
+  (forall f, is_dec (fv f) = true) -> (forall i, is_dec (d i) = true) ->
+  (match hdr with c :: _ => is_hex c | [] => false end) = true -> contains 10 hdr = false ->
+  parse_rollup (k_rollup {| ru_hdr := hdr; ru_lines := k6_rollup_lines fv d |}) =
+  Val ((dec_val (fv FPrivateClean) + dec_val (fv FPrivateDirty) + dec_val (fv FPrivateHugetlb)) * 1024,
+       dec_val (fv FPss) * 1024, dec_val (fv FSwap) * 1024).
+Proof. exact k6_rollup_ignores_decoys. Qed.
+Print Assumptions C13_rollup_ignores_decoys.
+
+(* the same for the listing: every mapping carries the complete line set (KernelPageSize,
+   MMUPageSize, Pss_Dirty, KSM, ..., SwapPss, Locked, THPeligible, ProtectionKey, VmFlags) with
+   arbitrary values; sums and rows are those of the figures *)
+Theorem C13_smaps_ignores_decoys : forall ex ms,
+  (forall m, In m ms -> wf_header ex m = true /\
+     exists fv d fl, m_lines m = k6_lines fv d fl /\ (forall f, is_dec (fv f) = true) /\
+                     (forall i, is_dec (d i) = true) /\ fl <> [] /\ forallb flag_ok fl = true) ->
+  parse_smaps Alive (FContent (k_smaps ms)) = Val (spec_sums ms)
+  /\ memory_maps Alive ex (FContent (k_smaps ms)) = Val (map spec_row ms).
+Proof. exact k6_smaps_ignores_decoys. Qed.
+Print Assumptions C13_smaps_ignores_decoys.
+
 (* memory_full_info() with the roll-up as the source, for every roll-up whose totals are
    those of the mapping list *)
 Theorem C13_full_info_rollup : forall pagesize r ms rl smaps,
